@@ -87,7 +87,8 @@ SINGLE = MODELLED + ["mem2reg", "tailcall"]
 LEVELS = ["O0", "O1", "O2", "Os"]
 # pass -> Lean-verified validator that every real output of the pass goes through (Model.OptCheck)
 VALIDATED = {"delunused": ["align"], "cse": ["subst"], "addzero": ["subst"], "constfold": ["align", "subst"],
-             "cjump": ["subst"]}     # cjump: only the folding decision (before -> before with the folded jumps)
+             "cjump": ["subst"],     # cjump: only the folding decision (before -> before with the folded jumps)
+             "las": ["subst"]}       # las: the forwarding half (before -> after with the removed stores put back)
 
 
 def pass_object(name):
@@ -454,6 +455,10 @@ def process(ctx, tag, text, only, fixed, pipelines):
             stages = VALIDATED[p]
             if p == "cjump":
                 mids = [fold_module(text, after)]
+            elif p == "las":
+                mids = [forward_module(text, after)]
+                if T.show(T.parse(mids[0])) != after:
+                    v["las_removed_stores"] = True
             else:
                 mids = [after] if len(stages) == 1 else [mid_module(text, after), after]
             v["check_at"] = []
@@ -514,8 +519,11 @@ def evaluate(ctx, plan, replies):
             elif outside_validator_class(p, text, v["after"]):
                 ctx.count(f"validator_not_applicable_{p}")
             else:
+                ctx.count(f"validator_rejected_{p}")
                 ctx.disagree(f"{p}: the Lean validator {'+'.join(VALIDATED[p])} rejects the real pass output", case0,
                              "accept", " ".join(crs))
+            if v.get("las_removed_stores"):
+                ctx.count("las_outputs_with_removed_stores_(removal_half_not_validated)")
         if v["after_at"] is None:
             continue
         at = v["after_at"]
@@ -557,6 +565,26 @@ def mid_module(before, after):
             out += bb[k:]
             bb[2:] = out
     return T.show(tb)
+
+
+def forward_module(before, after):
+    """the output of LoadAfterStore with the stores it removed put back (aligned from the end of each block: of
+    two stores to one address the later one survives): the forwarding half, which `checkSubst` covers"""
+    tb, ta = T.parse(before), T.parse(after)
+    for fb, fa in zip(T.funcs_of(tb), T.funcs_of(ta)):
+        for bb, ba in zip(T.blocks_of(fb), T.blocks_of(fa)):
+            out, j = [], len(ba) - 1
+            for i in reversed(bb[2:]):
+                a = ba[j] if j >= 2 else None
+                same = a is not None and a[0] == i[0] and (T.dst_of(a) == T.dst_of(i)) and \
+                    (i[0] not in ("store", "vstore") or a[1] == i[1])
+                if same:
+                    out.append(a)
+                    j -= 1
+                else:
+                    out.append(i)
+            ba[2:] = list(reversed(out))
+    return T.show(ta)
 
 
 def fold_module(before, after):
@@ -602,6 +630,20 @@ def outside_validator_class(p, before, after):
                             da = defs.get(a[1:]) if a.startswith("%") else None
                             isc = lambda q: q is not None and q[2] is not None and q[2][0] == "const"
                             x = b if (isc(da) and d[2][3] == "add" and da[2][3] == "0") else a
+        return False
+    if p == "las":
+        # not covered: forwarding of non-integer (pointer / float) values
+        tb, ta = T.parse(before), T.parse(after)
+        for fb in T.funcs_of(tb):
+            defs = T.def_table(fb)
+        for fb, fa in zip(T.funcs_of(tb), T.funcs_of(ta)):
+            defs = T.def_table(fb)
+            used_after = {c[j] for b in T.blocks_of(fa) for i in b[2:] for c, j in T.operand_slots(i)}
+            for b in T.blocks_of(fb):
+                for i in b[2:]:
+                    if i[0] == "load" and i[2] not in T.INT_TYPES and i[1] not in used_after:
+                        if any(c[j] == i[1] for bb in T.blocks_of(fb) for ii in bb[2:] for c, j in T.operand_slots(ii)):
+                            return True
         return False
     if p == "cjump":
         # not covered: comparisons of float / pointer constants (the rule `cjFold` knows integers only)
